@@ -11,7 +11,9 @@
 package fetcher
 
 import (
+	"bytes"
 	"context"
+	"slices"
 
 	"github.com/sourcenetwork/corekv"
 
@@ -19,6 +21,7 @@ import (
 	"github.com/sourcenetwork/defradb/errors"
 	"github.com/sourcenetwork/defradb/internal/connor"
 	"github.com/sourcenetwork/defradb/internal/db/id"
+	"github.com/sourcenetwork/defradb/internal/encoding"
 	"github.com/sourcenetwork/defradb/internal/keys"
 	"github.com/sourcenetwork/defradb/internal/planner/filter"
 	"github.com/sourcenetwork/defradb/internal/planner/mapper"
@@ -239,6 +242,7 @@ type inIndexIterator struct {
 	fieldConditions []fieldFilterCond
 	matchers        []valueMatcher
 	isUnique        bool
+	reverse         bool
 }
 
 var _ indexIterator = (*inIndexIterator)(nil)
@@ -287,7 +291,8 @@ func (iter *inIndexIterator) createIteratorForNextValue() error {
 			Descending: iter.fetcher.indexDesc.Fields[0].Descending,
 		}}
 
-		iter.indexIterator = iter.fetcher.newPrefixBaseMatchIterator(indexKey, iter.matchers, iter.fetcher.execInfo)
+		iter.indexIterator = iter.fetcher.newPrefixBaseMatchIterator(indexKey, iter.matchers, iter.fetcher.execInfo).
+			Reverse(iter.reverse)
 	}
 
 	return nil
@@ -457,12 +462,29 @@ func (f *indexFetcher) newInIndexIterator(
 
 	isUnique := isUniqueFetchByFullKey(&f.indexDesc, fieldConditions)
 
+	// If the index is relied upon to provide the requested order the values have to be visited
+	// in index order (or its reverse), not in the order they were given in.
+	ordered, reverse := CanBeOrderedByIndex(f.ordering, f.indexDesc, f.mapping)
+	if ordered {
+		descending := f.indexDesc.Fields[0].Descending
+		slices.SortFunc(inValues, func(a, b client.NormalValue) int {
+			return bytes.Compare(
+				encoding.EncodeFieldValue(nil, a, descending),
+				encoding.EncodeFieldValue(nil, b, descending),
+			)
+		})
+		if reverse {
+			slices.Reverse(inValues)
+		}
+	}
+
 	inIter := &inIndexIterator{
 		inValues:        inValues,
 		fetcher:         f,
 		fieldConditions: fieldConditions,
 		matchers:        matchers,
 		isUnique:        isUnique,
+		reverse:         ordered && reverse,
 	}
 
 	err = inIter.createIteratorForNextValue()
